@@ -477,47 +477,63 @@ def rule_thresholds(ctx, primes):
     flag = flags[0][1]["path"]
     extra = [s for c, s in zip(conds, strs) if c[0] not in ("loop",) and s.replace(" ", "") not in ("!data.less_than.is_empty()", "!" + flag)]
     ctx.check(R, "find_unconstrained_less_than/no-other-suppression", not extra, "other conditions: %s" % extra, site(LT, p))
-    # where is the flag set?
-    inits = [n for n in walk(fn["body"]) if n["k"] == "Local" and n["pat"]["k"] == "PIdent" and n["pat"]["name"] == flag]
-    ctx.check(R, "find_unconstrained_less_than/flag-initially-false", len(inits) == 1 and render(inits[0]["init"]) == "false", "let %s = %s" % (flag, render(inits[0]["init"]) if inits else "?"))
-    sets = [n for n in walk(fn["body"]) if n["k"] == "Assign" and render(n["l"]) == flag]
-    if not sets:
-        return ctx.bad(R, "find_unconstrained_less_than/flag-set", "flag %s is never set" % flag)
+    # where does the flag become true?  two shapes: a loop that sets it, or `iter().any(..)`
     env = param_env(LT, fn, [])
-    for s in sets:
-        if render(s["r"]) != "true":
-            ctx.bad(R, "find_unconstrained_less_than/flag-set/value", "flag assigned %s" % render(s["r"]), site(LT, s))
-            continue
-        cs = conditions_to(fn["body"], s)
-        # conditions below the data loop
-        own = []
-        seen_loop = False
-        for c in cs:
-            if c[0] == "loop" and "bit_sizes" in fact_str(c):
-                seen_loop = True
-                loopf = c
+    inits = [n for n in walk(fn["body"]) if n["k"] == "Local" and n["pat"]["k"] == "PIdent" and n["pat"]["name"] == flag]
+    cases = []  # (collection text, element var, facts below the element, site)
+    if len(inits) == 1 and render(strip(inits[0]["init"])) == "false":
+        sets = [n for n in walk(fn["body"]) if n["k"] == "Assign" and render(n["l"]) == flag]
+        if not sets:
+            return ctx.bad(R, "find_unconstrained_less_than/flag-set", "flag %s is never set" % flag)
+        for s_ in sets:
+            if render(s_["r"]) != "true":
+                ctx.bad(R, "find_unconstrained_less_than/flag-set/value", "flag assigned %s" % render(s_["r"]), site(LT, s_))
                 continue
-            if seen_loop:
-                own.append(c)
-        if not seen_loop:
-            ctx.bad(R, "find_unconstrained_less_than/flag-set/over-bit-sizes", "flag set outside a loop over data.bit_sizes: %s" % [fact_str(c) for c in cs], site(LT, s))
-            continue
-        loopvar = render(loopf[2])
+            cs = conditions_to(fn["body"], s_)
+            own, loopf = [], None
+            for c in cs:
+                if c[0] == "loop" and "bit_sizes" in fact_str(c):
+                    loopf = c
+                    own = []
+                    continue
+                if loopf is not None:
+                    own.append(c)
+            if loopf is None:
+                ctx.bad(R, "find_unconstrained_less_than/flag-set/over-bit-sizes", "flag set outside a loop over data.bit_sizes: %s" % [fact_str(c) for c in cs], site(LT, s_))
+                continue
+            cases.append((render(loopf[3]), render(loopf[2]), own, s_))
+    elif len(inits) == 1:
+        init = strip(inits[0]["init"])
+        ok_any = init["k"] == "MethodCall" and init["method"] == "any" and init["args"] and init["args"][0]["k"] == "Closure" and "bit_sizes" in render(init["recv"])
+        if not ok_any:
+            return ctx.bad(R, "find_unconstrained_less_than/flag-set", "flag defined as `%s`: neither a loop that sets it nor `bit_sizes.iter().any(..)`" % render(init)[:120], site(LT, inits[0]))
+        cl = init["args"][0]
+        var = render(cl["inputs"][0]) if cl["inputs"] else "?"
+        body = strip(cl["body"])
+        from pathcond import split_cond
+        own = split_cond(body, True)
+        # `if let P = e { cmp } else { false }`
+        if body["k"] == "If" and body["cond"]["k"] == "Let" and body["else"] is not None and render(strip(body["else"])) == "false":
+            own = split_cond(body["cond"], True) + split_cond(strip(body["then"]), True)
+        cases.append((render(init["recv"]), var, own, inits[0]))
+    else:
+        return ctx.bad(R, "find_unconstrained_less_than/flag-set", "cannot find the definition of flag %s" % flag)
+    for coll, loopvar, own, s_ in cases:
         src_of_value = value_binding(own, "value")
         cmpf = [x for x in own if x[0] == "if" and x[1]["k"] == "Binary"]
         others = [fact_str(x) for x in own if not (x[0] == "iflet" and "FieldElement" in fact_str(x)) and x not in cmpf]
         bound = normalise_cmp(cmpf[0][1], cmpf[0][2], lambda e: render(e) == "value", env) if len(cmpf) == 1 else None
         detail = "flag set under %s ; normal form %s" % ([fact_str(c) for c in own], bound)
-        ctx.check(R, "find_unconstrained_less_than/flag-set/size-from-Num2Bits-argument", src_of_value == loopvar, "value from `%s.value()`, loop variable `%s`" % (src_of_value, loopvar), site(LT, s))
+        ctx.check(R, "find_unconstrained_less_than/flag-set/size-from-Num2Bits-argument", src_of_value == loopvar.lstrip("&") and "bit_sizes" in coll, "value from `%s.value()`, element `%s` of `%s`" % (src_of_value, loopvar, coll), site(LT, s_))
         good = bound is not None and bound[0] == "le" and not others
         if good:
             a, c = bound[1], bound[2]
             for curve, pr in sorted(primes.items()):
                 bits = pr.bit_length()
                 bad_k = [k for k in range(0, 301) if ((k <= a * bits + c) != (2 ** k - 1 <= pr // 2))]
-                ctx.check(R, "find_unconstrained_less_than/threshold/" + curve, not bad_k, detail + " ; k where (k <= %d*%d%+d) differs from (2^k-1 <= p/2): %s" % (a, bits, c, bad_k[:6]), site(LT, s))
+                ctx.check(R, "find_unconstrained_less_than/threshold/" + curve, not bad_k, detail + " ; k where (k <= %d*%d%+d) differs from (2^k-1 <= p/2): %s" % (a, bits, c, bad_k[:6]), site(LT, s_))
         else:
-            ctx.bad(R, "find_unconstrained_less_than/threshold", detail + " ; other conditions %s" % others, site(LT, s))
+            ctx.bad(R, "find_unconstrained_less_than/threshold", detail + " ; other conditions %s" % others, site(LT, s_))
     # the component recognisers: LessThan / Num2Bits with one argument, input signal `in`
     uc = find_fn(LT, "update_components")
     ui = find_fn(LT, "update_inputs")
